@@ -143,17 +143,31 @@ def doOnboard (o : Options) : M Unit := do
   let pin ← onboardOptPin o
   onboardCore o pin
 
-/-- `do_changepin` -/
-def doChangePin (o : Options) : M Unit := do
-  let newPin : Option Bytes ← (match o.newPin with
-    | some p => if pinValid (utf8 p) o.anyPin then pure (some (utf8 p)) else adminError
-    | none => pure none)
+/-- the new PIN given on the command line, validated before anything else -/
+def chgOptPin (o : Options) : M (Option Bytes) :=
+  match o.newPin with
+  | some p => if pinValid (utf8 p) o.anyPin then pure (some (utf8 p)) else adminError
+  | none => pure none
+
+/-- the new PIN to send: the one given, or the one the operator types (asked until valid) -/
+def chgPin (o : Options) (newPin : Option Bytes) : M Bytes :=
+  match newPin with
+  | some p => pure p
+  | none => askForPin o.anyPin
+
+/-- unlock (unless told not to) and check the device is where a PIN change can be made -/
+def chgPrepare (o : Options) : M Unit := do
   if !o.noUnlock then
     M.tryCatchIf (doUnlock o false) (fun _ => true) (fun _ => adminError)
   getHsm
   let mode ← getCurrentMode
   if (← getWorld).platform == .ledger && mode != Mode_BOOTLOADER.toNat then adminError
-  let np ← (match newPin with | some p => pure p | none => askForPin o.anyPin)
+
+/-- `do_changepin` -/
+def doChangePin (o : Options) : M Unit := do
+  let newPin ← chgOptPin o
+  chgPrepare o
+  let np ← chgPin o newPin
   if !(← platNewPin np) then adminError
   disposeHsm
 
